@@ -10,7 +10,8 @@
             (<= 100 header lines, each line <= 8192 bytes), one of the supported methods
    expect   what the property text demands to be reported for the message
    known    decidable classes of well-formed messages on which the unchanged code is known to
-            deviate from `expect` (findings; each has a witness lemma in Proofs/) *)
+            deviate from `expect` (findings; each has a witness lemma in Proofs/).
+            Repaired and removed: gate methods (4eff695), tag case (050bdf8), weight OWS (b696a82). *)
 From Coq Require Import List NArith Bool.
 From Coq Require Import Strings.Byte.
 From HN Require Import Base.Bytes Base.Http1Text Model.SigAst Model.Http1 Model.Lang Model.Http1Obs
@@ -19,8 +20,10 @@ Import ListNotations.
 Open Scope N_scope.
 
 (* ---------- abstract syntax ---------- *)
-Record lang_item := { li_pre : bytes; li_tag : bytes; li_weight : option (bytes * bytes * bytes); li_post : bytes }.
-   (* OWS  language-range  [ OWS ";" OWS "q=" qvalue ]  OWS ;  weight = (ows before ';', ows after ';', qvalue) *)
+Record lang_item := { li_pre : bytes; li_tag : bytes; li_weight : option (bytes * bytes * bytes); li_post : bytes;
+                      li_qupper : bool }.
+   (* OWS  language-range  [ OWS ";" OWS "q=" qvalue ]  OWS ;  weight = (ows before ';', ows after ';', qvalue);
+      li_qupper: the literal is written "Q=" (ABNF literals are case-insensitive, RFC 5234 2.3) *)
 Inductive hvalue := VRaw (v : bytes) | VLang (items : list lang_item).
 Record hline := { hl_name : bytes; hl_ows1 : bytes; hl_value : hvalue; hl_ows2 : bytes }.
 Inductive start_line :=
@@ -37,7 +40,9 @@ Fixpoint sep_concat (sep : byte) (ls : list bytes) : bytes :=
   end.
 Definition render_item (i : lang_item) : bytes :=
   li_pre i ++ li_tag i ++
-  match li_weight i with Some (o1, o2, q) => o1 ++ ";"%byte :: o2 ++ bs "q=" ++ q | None => [] end ++ li_post i.
+  match li_weight i with
+  | Some (o1, o2, q) => o1 ++ ";"%byte :: o2 ++ (if li_qupper i then bs "Q=" else bs "q=") ++ q
+  | None => [] end ++ li_post i.
 Definition render_value (v : hvalue) : bytes :=
   match v with VRaw b => b | VLang items => sep_concat ","%byte (map render_item items) end.
 Definition render_version (v11 : bool) : bytes := if v11 then bs "HTTP/1.1" else bs "HTTP/1.0".
@@ -122,13 +127,9 @@ Definition spec_lang (items : list lang_item) : lang_res :=
   | None => LNone
   end.
 
-(* finding classes for Accept-Language *)
-Definition known_weight_ows (items : list lang_item) : bool :=   (* OWS after ';' or after the qvalue *)
-  existsb (fun i => match li_weight i with
-                    | Some (_, o2, _) => negb (bytes_eqb o2 []) || negb (bytes_eqb (li_post i) [])
-                    | None => false end) items.
-Definition known_tag_case (items : list lang_item) : bool :=      (* upper-case letters in the primary subtag *)
-  existsb (fun i => existsb is_upper (primary_subtag (li_tag i))) items.
+(* finding class for Accept-Language: the weight literal written "Q=" is not recognised (read as 1.0) *)
+Definition known_upper_q (items : list lang_item) : bool :=
+  existsb (fun i => li_qupper i && match li_weight i with Some _ => true | None => false end) items.
 
 (* ---------- cookies (RFC 6265 4.2.1: cookie-pair *( ";" SP cookie-pair ), read tolerantly) ---------- *)
 Fixpoint drop_ows (l : bytes) : bytes :=
@@ -236,9 +237,6 @@ Definition expect_response (m : msg) (v11 : bool) (st : bytes) : resp_report :=
                  hs_expsw := software (first_named (bs "server") reported) |} |}.
 
 (* ---------- known deviations (findings) ---------- *)
-(* the entry point's gate lists 16 methods, the parser 18: MKCALENDAR and REPORT are never analysed *)
-Definition known_method (m : msg) : bool :=
-  match m_start m with SReq me _ _ => bytes_eqb me (bs "MKCALENDAR") || bytes_eqb me (bs "REPORT") | _ => false end.
 (* more than one Cookie header: only the last one is reported *)
 Definition known_cookies (m : msg) : bool :=
   is_request m && (1 <? N.of_nat (length (filter (named (bs "cookie")) (m_headers m)))).
@@ -247,9 +245,6 @@ Definition lang_items (m : msg) : list lang_item :=
   match find (named (bs "accept-language")) (m_headers m) with
   | Some h => match hl_value h with VLang items => items | VRaw _ => [] end
   | None => [] end.
-(* a weight written with OWS after ';' or after the qvalue is read as 1.0 *)
-Definition known_lang_ows (m : msg) : bool := is_request m && known_weight_ows (lang_items m).
-(* a primary subtag with upper-case letters is not found in the table *)
-Definition known_lang_case (m : msg) : bool := is_request m && known_tag_case (lang_items m).
-Definition known_lang (m : msg) : bool := known_lang_ows m || known_lang_case m.
-Definition known (m : msg) : bool := known_method m || known_cookies m || known_lang m.
+(* a weight whose literal is written "Q=" is read as 1.0 *)
+Definition known_lang (m : msg) : bool := is_request m && known_upper_q (lang_items m).
+Definition known (m : msg) : bool := known_cookies m || known_lang m.
